@@ -122,7 +122,7 @@ func (fold *fold) Exit(node *Node) {
 				}
 			}
 			{
-				value := make([]int, len(n.Nodes))
+				value := make([]interface{}, len(n.Nodes))
 				for i, a := range n.Nodes {
 					value[i] = a.(*IntegerNode).Value
 				}
@@ -136,7 +136,7 @@ func (fold *fold) Exit(node *Node) {
 				}
 			}
 			{
-				value := make([]string, len(n.Nodes))
+				value := make([]interface{}, len(n.Nodes))
 				for i, a := range n.Nodes {
 					value[i] = a.(*StringNode).Value
 				}
